@@ -49,6 +49,9 @@ def gen_bufs(rng, big_ok):
         return rng.choice(["1x1030", "0x1024,3", "1x1023,0,2,1", "0x1030", "2x1025", "1x1024", "0x1023,5,5"])
     if r < 3:
         return ",".join(["0"] * rng.range(1, 4))
+    if r < 6:   # data followed by a run of empty buffers (request stays queued with 0 bytes left)
+        head = [str(rng.choice([1, 2, 3, 5])) for _ in range(rng.range(1, 2))]
+        return ",".join(head + ["0"] * rng.range(2, 4))
     n = rng.range(1, 5)
     return ",".join(str(rng.choice([0, 1, 1, 2, 3, 4, 7])) for _ in range(n))
 
@@ -80,8 +83,9 @@ def gen_op(rng, ipc, in_script, big_ok, bias=None):
     if bias == "shut" and r < 6:
         return "s"
     if r < 9:
-        h = "h" if (ipc and rng.chance(1, 3)) or rng.chance(1, 25) else ""
-        return f"w{h}{':' if in_script else ' '}{gen_bufs(rng, big_ok)}"
+        b = gen_bufs(rng, big_ok)
+        h = "h" if (ipc and (rng.chance(1, 3) or "x" in b)) or rng.chance(1, 25) else ""
+        return f"w{h}{':' if in_script else ' '}{b}"
     if r < 13:
         h = "h" if (ipc and rng.chance(1, 3)) or rng.chance(1, 25) else ""
         return f"t{h}{':' if in_script else ' '}{gen_bufs(rng, False)}"
@@ -147,6 +151,10 @@ def monitor(case, out):
 
     def tick():
         st["t"] += 1; return st["t"]
+
+    for l in out:
+        if l.startswith("sys ") and l.split()[1] != "shutdown" and int(l.split()[2]) > 1024:
+            raise Bad("iov-count-exceeds-IOV_MAX", f"libuv handed {l.split()[2]} iovecs to {l.split()[1]}(2): the kernel answers EMSGSIZE and valid data is never sent")
 
     def api(opw, nxt):
         """consume the lines of one API op: sys* ret obs"""
@@ -453,6 +461,8 @@ def run(ctx):
     ctx.require_lean(["UvModel.Props.C05"])
     uexe = ctx.harness("c05_requpdate", ["harness/c05_requpdate.c"], link_lib=True)
     sexe = ctx.harness("c05_sim", ["harness/c05_sim.c"], link_lib=True)
+    # same harness against the NDEBUG build of the library: behaviour behind the asserts of stream.c
+    sexe_nd = ctx.harness("c05_sim_nd", ["harness/c05_sim.c"], variant="asan-ndebug", link_lib=True)
     if ctx.replay:
         rp = json.loads(Path(ctx.replay).read_text())["replay"]
         if rp["mode"] == "upd" and uexe:
@@ -475,15 +485,21 @@ def run(ctx):
         ccases = [[l for l in p.read_text().splitlines() if l.strip()] for p in corpus]
         if ccases:
             run_sim(ctx, sexe, ccases, "corpus")
-        total = ctx.scale(900, 30000)
-        batch = 300
+            if sexe_nd:
+                run_sim(ctx, sexe_nd, ccases, "corpus, NDEBUG library")
+        total = ctx.scale(750, 30000)
+        batch = 250
         done = 0
+        nb = 0
         while done < total and not ctx.violations and not any(k == "correspondence" for k, _, _ in ctx.broken):
-            cases = [gen_case(rng, rng.range(3, ctx.scale(14, 30))) for _ in range(min(batch, total - done))]
+            cases = [gen_case(rng, rng.range(3, ctx.scale(14, 30)), "shut" if nb % 3 == 2 else None)
+                     for _ in range(min(batch, total - done))]
             if done == 0:
                 ctx.sample({"program": cases[0]})
-            run_sim(ctx, sexe, cases, "random")
-            done += len(cases)
+            nd = sexe_nd is not None and nb % 3 == 2
+            run_sim(ctx, sexe_nd if nd else sexe, cases, "random, NDEBUG library" if nd else "random")
+            ctx.notes["ndebug_cases"] = ctx.notes.get("ndebug_cases", 0) + (len(cases) if nd else 0)
+            done += len(cases); nb += 1
     if ctx.broken and not ctx.violations and sexe:
         ctx.log("obligation broken; searching for a failing input with the monitors")
         srng = SplitMix(ctx.seed + 4242)
